@@ -19,4 +19,28 @@ inductive Check where
   | unknown
 deriving DecidableEq, Repr, Inhabited
 
+/-- C20: a field of a key slot that `KeyStorage.hashSlots` feeds into the HMAC, in write order
+    (`hash.Write(keySlots[key].EncryptedKey)` ⇒ `.blob`). -/
+inductive HmacField where
+  | blob      -- `keySlots[key].EncryptedKey`
+  | id        -- `[]byte(key)`
+  | alg       -- the slot's algorithm
+  | unknown
+deriving DecidableEq, Repr, Inhabited
+
+/-- C20: a guard of pkg/keystorage/keystorage.go, recognised from `switch { case <cond>: return <err> }`,
+    `switch len(slots) { case n: return <err> }` or `if <cond> { return <err> }`. -/
+inductive KsGuard where
+  | mkLen32      -- `len(masterKey) != 32` ⇒ untagged error
+  | emptyId      -- `slotID == ""` / `newSlotID == ""` ⇒ untagged error
+  | emptyKey     -- `slotPublicKey == ""` / `newSlotPublicKey == ""` / `slotPrivateKey == ""` ⇒ untagged error
+  | alreadyInit  -- `!isZero(&ks.underlying)` ⇒ AlreadyInitializedTag
+  | notInit      -- `isZero(&ks.underlying)` ⇒ NotInitializedTag
+  | version      -- `GetStorageVersion() != STORAGE_VERSION_1` ⇒ VersionMismatchTag
+  | slotExists   -- `GetKeySlots()[newSlotID] != nil` ⇒ SlotAlreadyExists
+  | noSlots      -- `len(slots) == 0` ⇒ NotInitializedTag
+  | lastSlot     -- `len(slots) == 1` ⇒ LastKeyTag
+  | unknown
+deriving DecidableEq, Repr, Inhabited
+
 end Cosi.Gen
